@@ -47,6 +47,12 @@ def simulate(case):
                     tl["tr"].append((k, d.get("112")))
                     if ans:
                         pending.append((k + ans[1], d.get("112"), ans[0]))
+                elif t == "2":
+                    # the peer fills whatever the endpoint asks for with a GapFill up to its next number
+                    b = int(d.get("7", "1"))
+                    if w.reader is not None and c.connection_state.value > 3 and b < w.peer_seq:
+                        w.feed(refs.frame("4", b, w.T, w.S, [(123, "Y"), (36, w.peer_seq)], extra_header=[(43, "Y")]))
+                    tl["other"].append((k, "2"))
                 elif t == "0":
                     tl["hb_replies"].append((k, d.get("112")))
                 elif t == "5":
@@ -65,9 +71,11 @@ def simulate(case):
                     w.peer("0", None)
                 elif kind == "app":
                     w.peer("D", None, [(11, f"a{k}")])
-                elif kind == "tr":
+                elif kind in ("tr", "tr_gap"):
                     nid += 1
                     rid = f"P{nid}"
+                    if kind == "tr_gap":
+                        w.peer_seq += 1  # one earlier message of the peer was lost: this one is numbered too high
                     w.peer("1", None, [(112, rid)])
                     tl["inbound_tr"].append((k, rid))
                 tl["arrivals"].append(k)
@@ -79,7 +87,9 @@ def simulate(case):
                     pending.remove(item)
                     if c.connection_state.value <= 3:
                         return
-                    if mode == "right":
+                    if mode in ("right", "right_gap"):
+                        if mode == "right_gap":
+                            w.peer_seq += 1  # the echo arrives numbered above expectation (an earlier frame was lost)
                         w.peer("0", None, [(112, rid)])
                         answered.add(rid)
                     elif mode == "wrong":
@@ -105,6 +115,27 @@ def simulate(case):
             if w.livelock:
                 tl["livelock"] = k
                 break
+        if case.get("second_life") and tl["disc"] is not None and "livelock" not in tl:
+            # same connection object, new transport connection, clean Logon, then a peer that answers every TestRequest
+            w.connect()
+            w.logon(hb=hb)
+            w.take()
+            tl["life2_state0"] = c.connection_state.name
+            tl["life2_disc"] = None
+            tl["life2_tr"] = []
+            t0 = CLOCK.now
+            for k in range(1, case["second_life"] + 1):
+                w.loop.advance_to(t0 + k * Q, inclusive=True)
+                for raw in w.take():
+                    f, err = refs.try_parse(raw)
+                    d = refs.fdict(f) if f else {}
+                    if d.get("35") == "1":
+                        tl["life2_tr"].append((k, d.get("112")))
+                        if c.connection_state.value > 3:
+                            w.peer("0", None, [(112, d.get("112"))])
+                if c.connection_state.value <= 3:
+                    tl["life2_disc"] = k
+                    break
         tl["answered"] = sorted(answered)
         tl["ndisc"] = c.n_disconnect
         tl["final_state"] = c.connection_state.name
@@ -148,7 +179,7 @@ def judge(case, tl):
     outstanding = 0
     events = sorted([(k, 0, rid) for k, rid in tl["tr"]])
     ans_times = {}
-    if ans and ans[0] == "right":
+    if ans and ans[0] in ("right", "right_gap"):
         for k, rid in tl["tr"]:
             ans_times[rid] = k + ans[1]
     open_ids = []
@@ -180,9 +211,9 @@ def judge(case, tl):
     if disc is not None and not wrong_mode:
         gaps = [b - a for a, b in zip(marks, marks[1:] + [end])]
         fast = all(g <= hq - int(1 / Q) for g in gaps) if hb >= 2 else False
-        answers_all = ans and ans[0] == "right" and ans[1] <= 2 * hq - int(1 / Q)
+        answers_all = ans and ans[0] in ("right", "right_gap") and ans[1] <= 2 * hq - int(1 / Q)
         if answers_all:
-            V("responsive_peer_disconnected", f"{hbclass}:answer_delay_{'0' if ans[1] == 0 else ('le_hb' if ans[1] <= hq else 'gt_hb')}", "a peer that answers each TestRequest with a Heartbeat echoing its TestReqID is never disconnected by the watchdog", disconnected_at=disc)
+            V("responsive_peer_disconnected", f"{hbclass}:{'echo_across_gap:' if ans[0] == 'right_gap' else ''}answer_delay_{'0' if ans[1] == 0 else ('le_hb' if ans[1] <= hq else 'gt_hb')}", "a peer that answers each TestRequest with a Heartbeat echoing its TestReqID is never disconnected by the watchdog", disconnected_at=disc)
         elif fast:
             V("fast_traffic_peer_disconnected", hbclass, "a peer that keeps sending valid traffic is never disconnected by the watchdog", disconnected_at=disc)
     # 5. wrong TestReqID => Logout + disconnect
@@ -194,7 +225,12 @@ def judge(case, tl):
                 V("wrong_testreqid_not_disconnected", hbclass, "a Heartbeat echoing a wrong TestReqID ends the session with a Logout", due=due)
             elif not tl["logout"]:
                 V("wrong_testreqid_no_logout", hbclass, "a Heartbeat echoing a wrong TestReqID ends the session with a Logout", due=due)
-    if tl["ndisc"] > 1:
+    if case.get("second_life") and tl.get("life2_state0") is not None:
+        if tl["life2_state0"] != "ACTIVE":
+            V("no_session_after_reconnect", hbclass, "a new session on the same connection object is established", state=tl["life2_state0"])
+        elif tl["life2_disc"] is not None:
+            V("responsive_peer_disconnected", f"{hbclass}:after_reconnect_following_watchdog_disconnect", "a peer that answers each TestRequest is never disconnected by the watchdog", disconnected_at=tl["life2_disc"])
+    if tl["ndisc"] > (2 if case.get("second_life") and tl.get("life2_disc") is not None else 1):
         V("disconnect_reported_twice", hbclass, "the watchdog disconnects once")
     return out[:1]
 
@@ -216,6 +252,11 @@ def scripted_cases(quick):
                 for order in ("timers", "peer"):
                     mk = lambda **kw: dict(dict(role=role, hb=hb, phase=phase, order=order, horizon=12 * hq if hb < 30 else 5 * hq, arrivals={}, answer=None), **kw)
                     cases.append(mk())  # silent from t0
+                    if role == "acceptor" and order == "timers":
+                        cases.append(mk(second_life=6 * hq))  # dead peer, then a new session on the same object
+                        for d in sorted({0, hq}):
+                            cases.append(mk(answer=("right_gap", d)))  # echo numbered above expectation
+                        cases.append(mk(arrivals={2: ["tr_gap"], hq + 2: ["tr_gap"]}, answer=("right", 0)))
                     # answering peers, otherwise silent
                     for d in sorted({0, hq // 2, hq, 2 * hq - 4}):
                         if d < 0:
